@@ -113,6 +113,39 @@ pub fn select_best_quality_idx(conns: &[crate::connection::SrtlaConnection]) -> 
     best_idx
 }
 
+/// Best-quality link among those the scheduler itself may use right now.
+///
+/// Same ranking as [`select_best_quality_idx`], but a link that is timed out or
+/// stall-gated is skipped: the override exists to put must-land packets on the
+/// healthiest path, and both conditions mean the selector has just ruled the
+/// link out (a gated link is a suspected black hole; a timed-out one is about
+/// to be torn down). The cached multiplier of such a link is also stale, since
+/// the cache is only refreshed for links the selector scores.
+pub fn select_best_quality_eligible_idx(
+    conns: &[crate::connection::SrtlaConnection],
+    now_ms: u64,
+) -> Option<usize> {
+    let mut best_idx = None;
+    let mut best_quality = f64::NEG_INFINITY;
+
+    for (i, conn) in conns.iter().enumerate() {
+        if !conn.connected
+            || !conn.is_schedulable()
+            || conn.is_timed_out(now_ms)
+            || conn.is_stall_gated()
+        {
+            continue;
+        }
+        let q = conn.quality_cache.multiplier;
+        if q > best_quality {
+            best_quality = q;
+            best_idx = Some(i);
+        }
+    }
+
+    best_idx
+}
+
 #[cfg(test)]
 mod tests {
     use super::*;
